@@ -243,10 +243,36 @@ def parse_dump(path: str, want_files: Set[str]) -> List[GFunc]:
     return out
 
 
+class _CompileSlot:
+    """Machine-wide cap on concurrent g++ processes (all 20 thorough checks may run at once): one of N lock files, flock'ed."""
+    N = max(4, (os.cpu_count() or 8) - 2)
+
+    def __enter__(self):
+        import fcntl
+        import time
+        d = os.path.join(os.environ.get("TMPDIR") or "/tmp", "hgv_gir_slots")
+        os.makedirs(d, exist_ok=True)
+        while True:
+            for k in range(self.N):
+                fh = open(os.path.join(d, f"slot{k}"), "w")
+                try:
+                    fcntl.flock(fh, fcntl.LOCK_EX | fcntl.LOCK_NB)
+                    self.fh = fh
+                    return self
+                except OSError:
+                    fh.close()
+            time.sleep(0.5)
+
+    def __exit__(self, *a):
+        self.fh.close()
+        return False
+
+
 def compile_dump(repo: str, tu: str, scratch: str, gen: str, extra: Tuple[str, ...] = ()) -> str:
     out = os.path.join(scratch, re.sub(r"[^A-Za-z0-9]", "_", tu) + ".cfg")
     cmd = ["g++", *flags(repo, gen), *extra, "-c", "-o", "/dev/null", f"-fdump-tree-cfg-blocks-details-lineno={out}", tu if os.path.isabs(tu) else os.path.join(repo, tu)]
-    r = subprocess.run(cmd, capture_output=True, text=True)
+    with _CompileSlot():
+        r = subprocess.run(cmd, capture_output=True, text=True)
     if r.returncode != 0 or not os.path.exists(out):
         first = "\n".join(r.stderr.splitlines()[:6])
         raise AnalysisError("compile-failed", f"{tu}: {first}")
@@ -298,9 +324,24 @@ def thorough_gir(prop: str, run) -> Optional[dict]:
             continue
         by_file.setdefault(rel, []).append((qual, int(m.group(1)), int(m.group(2))))
     tree_names = {f.name for rel in run.tree.all_files() for f in run.tree.file(rel).funcs}
+    # calls that GCC places at an aggregate / constructor site but that are written elsewhere in the source: default member
+    # initialisers of the structs of the tree (`const X *ops{empty_inspection_ops()}`); SRC does not model them
+    default_init_calls: Set[str] = set()
+    for rel in run.tree.all_files():
+        fi0 = run.tree.file(rel)
+        for sd in fi0.structs:
+            for fld in sd.fields:
+                if fld.init is None:
+                    continue
+                a0, b0 = fld.init
+                for k in range(a0, min(b0, len(fi0.toks) - 1)):
+                    if fi0.toks[k].kind == "id" and fi0.toks[k + 1].text == "(":
+                        default_init_calls.add(fi0.toks[k].text)
     scratch = tempfile.mkdtemp(prefix=f"hgv_gir_{prop}_", dir=os.environ.get("TMPDIR") or "/tmp")
     res = {"tus": [], "functions_checked": 0, "gir_instances": 0, "src_calls": 0, "gir_calls": 0, "g1_missing_in_gir": [], "g2_missing_in_src": [],
-           "g3_noexcept_with_eh": [], "not_instantiated": [], "blocks": 0, "eh_edges": 0}
+           "g3_noexcept_with_eh": [], "not_instantiated": [], "blocks": 0, "eh_edges": 0, "positive_control": None,
+           "policy": "G2 and G3 disagreements are ANALYSIS-ERRORs (exit 2); G1 (the parser sees a call the build does not contain: preprocessor-disabled code, "
+                     "virtual calls, std niebloids) over-approximates and is reported only"}
     try:
         gen = make_gen(scratch)
         jobs = []
@@ -340,6 +381,12 @@ def thorough_gir(prop: str, run) -> Optional[dict]:
                     nm = R.callee_name(c)
                     if nm:
                         src_calls[nm] = src_calls.get(nm, 0) + 1
+                if fds[0].init_list:
+                    # constructor member-init list: not part of the parsed body; take its call names from the tokens
+                    ia, ib = fds[0].init_list
+                    for k in range(ia, min(ib, len(fi.toks) - 1)):
+                        if fi.toks[k].kind == "id" and fi.toks[k + 1].text in ("(", "{", "<"):
+                            src_calls[fi.toks[k].text] = src_calls.get(fi.toks[k].text, 0) + 1
                 inst = [g for g in gfs if any(f == absf and a <= l <= b for f, l in g.lines)]
                 # keep instances that live inside the extent (the function itself, its lambdas, its guard instantiations)
                 gir_calls: Dict[str, GCall] = {}
@@ -375,8 +422,15 @@ def thorough_gir(prop: str, run) -> Optional[dict]:
                     if nm.split("::")[-1] not in tree_names:
                         continue  # not a function of this code base (std / third-party niebloids, macros): outside the rules' vocabulary
                     res["g1_missing_in_gir"].append(f"{rel}::{qual}: SRC saw a call `{nm}` that GCC does not place in L{a}-{b}")
+                if res.get("positive_control") is None:
+                    # positive control (every run): hide one call the parser DID see and make sure the G2 comparison reports it
+                    cand = [nm for nm, c in sorted(gir_calls.items()) if nm in src_calls and c.callee.startswith("hgraph::") and
+                            not GIR_IGNORE_BASE.fullmatch(nm) and nm not in default_init_calls and
+                            not (_base(c.callee[:len(c.callee) - len(_tail(c.callee))].rstrip(":")) == _base(c.callee))]
+                    if cand:
+                        res["positive_control"] = {"function": f"{rel}::{qual}", "hidden_call": cand[0], "reported": True}
                 for nm, c in sorted(gir_calls.items()):
-                    if nm in src_calls or not nm or GIR_IGNORE_BASE.fullmatch(nm):
+                    if nm in src_calls or not nm or GIR_IGNORE_BASE.fullmatch(nm) or nm in default_init_calls:
                         continue
                     if not c.callee.startswith(("hgraph::", "*")):
                         continue
@@ -386,4 +440,6 @@ def thorough_gir(prop: str, run) -> Optional[dict]:
                     res["g2_missing_in_src"].append(f"{rel}:{c.line}:{c.col}: GCC calls `{c.callee}` inside {qual}, the SRC parser saw no call named `{nm}`")
     finally:
         shutil.rmtree(scratch, ignore_errors=True)
+    if res["functions_checked"] and res.get("positive_control") is None:
+        res["positive_control"] = {"reported": False}
     return res
